@@ -10,6 +10,10 @@ BOUNDARY = [9, 10, 255, 256, 999, 1000, 32767, 32768, 65535, 65536, 65537, 99999
             9223372036854775807, 9223372036854775808, 9223372036854775809, 9999999999999999998, 9999999999999999999,
             18446744073709551615, 18446744073709551616, 18446744073709551617]
 _RUN = re.compile(r"[0-9]+")
+_HEAD = re.compile(r"^[vV=]*(?:[0-9]+[!:])?[0-9]+(?:\.[0-9]+)*")
+_TAIL = re.compile(r"[._~+-]?[A-Za-z]+[._-]?[0-9]*$")
+# spellings with leading zeros (octal-looking, zero-padded): equal in value to 0, 8, 9, 10, 11, 100
+ZEROLED = ["00", "08", "09", "010", "011", "0010", "0100"]
 def boundary_jobs(U, ecos, rnd, quick, maxval=None):
     """Same-template families: a universe member with one (sometimes two) of its digit runs replaced by
     every boundary number, several templates per job so that families also meet each other."""
@@ -22,10 +26,20 @@ def boundary_jobs(U, ecos, rnd, quick, maxval=None):
             texts, part = [], []
             for t, p in rnd.sample(pool, min(4, len(pool))):
                 runs = list(_RUN.finditer(t))
-                m = rnd.choice(runs)
+                m = runs[-1] if rnd.random() < 0.5 else rnd.choice(runs)      # qualifier / dev / post numbers come last
                 m2 = rnd.choice(runs)
-                for b in BOUNDARY:
+                for b in BOUNDARY + ZEROLED:
                     texts.append(t[:m.start()] + str(b) + t[m.end():]); part.append(p)
+                # the bare numeric head of the template (1.0 for 1.0.dev3) and its zero-extended spellings: what the
+                # boundary variants of a pre/post/dev/qualifier number have to be ordered against
+                h = _HEAD.match(t)
+                if h:
+                    for z in ("", ".0", ".00"):
+                        texts.append(h.group(0) + z); part.append(0)
+                # the template without its last marker segment (1.0a1 for 1.0a1.dev5, 1.0 for 1.0-rc.2)
+                cut = _TAIL.sub("", t)
+                if cut and cut != t:
+                    texts.append(cut); part.append(p)
                 if m2.start() != m.start():
                     lo, hi = sorted([m, m2], key=lambda x: x.start())
                     for b in rnd.sample(BOUNDARY, 6):
@@ -59,6 +73,14 @@ def run_ref(run, prop, ecos, caps, seeded_fn=None, extra_jobs_fn=None, shard=350
                 blk = rnd.sample(mem, shard)
                 jobs.append({"k": "matrix", "eco": eco, "tag": "Ux", "texts": [t for t, _ in blk], "part": [p for _, p in blk]})
     jobs += boundary_jobs(U, ecos, rnd, quick, maxval=boundary_max)
+    # small scope: every token sequence of length <= 2 / 3 after a stem that the parser accepts (Tokens.tla)
+    tok, tokcounts = vlib.token_universe(run, exe, ecos, 2 if quick else 3, cap=700 if quick else 4200, rnd=rnd)
+    run.extra["token_universe_candidates_accepted"] = tokcounts
+    for eco in ecos:
+        tm = list(tok[eco]); rnd.shuffle(tm)
+        for i in range(0, len(tm), shard):
+            blk = tm[i:i + shard]
+            jobs.append({"k": "matrix", "eco": eco, "tag": "tokens", "texts": blk, "part": [1 if (eco == "alpm" and "-" in t) else 0 for t in blk]})
     if seeded_fn:
         jobs += seeded_fn(U, rnd, quick)
     if extra_jobs_fn:
